@@ -16,6 +16,8 @@ for f in sorted(glob.glob(os.path.join(V, "seeded", "S*", "meta.json"))):
 st = "| id | property | change | needs | detected by |\n|---|---|---|---|---|\n" + "\n".join(seeds)
 c06 = open(os.path.join(V, "tools", "design_c06.md")).read() if os.path.exists(os.path.join(V, "tools", "design_c06.md")) else "(see the C06 row above)"
 src = src.replace("NUMBERED_FIXES", fx).replace("SEED_TABLE", st).replace("C06_DETAIL", c06.strip())
+nst = sum(1 for f in glob.glob(os.path.join(V, "seeded", "S*", "meta.json")) if json.load(open(f)).get("strengthened"))
+src = src.replace("seven only after the check was", "%d only after the check was" % nst)
 src = src.replace("(33 at the time of writing)", "(%d at the time of writing)" % len(fixes)).replace("all twenty are detected", "all %d are detected" % len(seeds))
 d = open(os.path.join(V, "DESIGN.md")).read()
 a = d.find("## 0. As built")
